@@ -172,7 +172,7 @@ class Result:
 class Driver:
     def __init__(self, exp, chooser, script, on_launch=None, max_decisions=4000, max_items=60000,
                  stuck_after_idle_waits=80, do_restart_sources=None, on_component_run=None, memoized=(),
-                 post_run=None, delay_finished=None):
+                 post_run=None, delay_finished=None, pass_at_lock=None):
         self.exp = exp
         self.chooser = chooser
         self.script = script
@@ -199,6 +199,11 @@ class Driver:
         # pool thread that delivers notifyFinished to the controller may be scheduled arbitrarily late; the component's
         # own state is final in the meantime)
         self.delay_finished = dict(delay_finished or {})
+        # nodes (or node-name predicates) whose finishedCheck() has to wait for the controller's lock while the stage
+        # loop performs a scheduler pass under it: the pass runs at the first `with comp_lock:` inside that call
+        self.pass_at_lock = pass_at_lock
+        self._armed = False
+        self._in_pass = False
 
     # -- hooks ------------------------------------------------------------------------------------
     def _on_launch(self, ref, job, n, reason):
@@ -265,9 +270,40 @@ class Driver:
                 # one scheduler wait lasts 5 virtual seconds: come back just after the next pass
                 late_pool.schedule_relative(5.5, lambda sch=None, st_=None: late_finished_check(ctrl, state, component))
                 return None
-            return orig_finished_check(ctrl, state, component)
-        if self.delay_finished:
+            if drv.pass_at_lock is not None and drv.pass_at_lock(ref) and not drv._in_pass:
+                drv._armed = True
+            try:
+                return orig_finished_check(ctrl, state, component)
+            finally:
+                drv._armed = False
+        if self.delay_finished or self.pass_at_lock is not None:
             control.Controller.finishedCheck = late_finished_check
+
+        class _PreemptLock:
+            """The controller's lock; when armed, a scheduler pass of the stage loop wins it first."""
+
+            def __init__(self, inner, ctrl):
+                self.inner, self.ctrl = inner, ctrl
+
+            def __enter__(self):
+                if drv._armed and not drv._in_pass:
+                    drv._armed = False
+                    drv._in_pass = True
+                    try:
+                        with self.inner:
+                            self.ctrl._schedule(migrated_components=set())
+                    finally:
+                        drv._in_pass = False
+                return self.inner.__enter__()
+
+            def __exit__(self, *a):
+                return self.inner.__exit__(*a)
+
+            def acquire(self, *a, **k):
+                return self.inner.acquire(*a, **k)
+
+            def release(self):
+                return self.inner.release()
         saved = dict(backends.backendGeneratorMap)
         for k in list(backends.backendGeneratorMap):
             backends.backendGeneratorMap[k] = self.backend
@@ -283,6 +319,8 @@ class Driver:
             self.controller = control.Controller(exp, do_restart_sources=self.do_restart_sources)
             ev = HarnessEvent(self)
             self.controller._event_scheduler = ev
+            if self.pass_at_lock is not None:
+                self.controller.comp_lock = _PreemptLock(self.controller.comp_lock, self.controller)
             if self.memoized:
                 # stand-in for the memoization database: the lookup hits for the chosen nodes and the "copy the
                 # outputs of the past run" step succeeds (both belong to C16's subject, not to scheduling)
